@@ -464,5 +464,73 @@ theorem call_total_coalesceList (args : List Value) (hargs : ∀ a ∈ args, a.W
   call_total_of_good coalesceListSpec coalesceListType coalesceListImpl rfl (fun _ w _ => type_total_coalesceList w)
     (fun _ _ h ht => implGood_coalesceList h ht) args hargs
 
+
+/-! ### `compact` -/
+
+theorem compactLoop_strings : ∀ (vs : List Payload), Payload.wfAll nfc .string vs = true →
+    Payload.containsMarkedL vs = false → Payload.whollyKnownL vs = true →
+    ∃ out, compactLoop (vs.map (⟨Ty.string, ·⟩)) = .ok out ∧ ∀ v ∈ out, v.ty = .string
+  | [], _, _, _ => ⟨[], rfl, fun _ h => by cases h⟩
+  | p :: vs, hw, hm, hk => by
+    simp only [Payload.wfAll, Bool.and_eq_true] at hw
+    simp only [Payload.containsMarkedL, Bool.or_eq_false_iff] at hm
+    simp only [Payload.whollyKnownL, Bool.and_eq_true] at hk
+    obtain ⟨out, ho, hot⟩ := compactLoop_strings vs hw.2 hm.2 hk.2
+    simp only [List.map_cons, compactLoop]
+    cases p <;> simp [Payload.wfP, Payload.containsMarked, Payload.whollyKnown] at hw hm hk
+    · -- null
+      simp only [Value.isNull, Payload.isNull, Payload.unmark1, if_true]
+      exact ⟨out, ho, hot⟩
+    · -- string
+      rename_i x
+      simp only [Value.isNull, Payload.isNull, Payload.unmark1, Bool.false_eq_true, if_false, asString,
+        Value.isMarked, Payload.isMarked, Ty.isString, Bool.not_true]
+      by_cases hx : x = ""
+      · simp only [hx, beq_self_eq_true, if_true]; exact ⟨out, ho, hot⟩
+      · simp only [beq_iff_eq, hx, if_false, ho]
+        exact ⟨_, rfl, fun v hv => by
+          rcases List.mem_cons.mp hv with rfl | hv'
+          · rfl
+          · exact hot v hv'⟩
+
+theorem implGood_compact (E : Env) {as : List Value} {rt : Ty} (h : ImplArgsOK nfc compactSpec as)
+    (ht : compactType as = .ok rt) : ImplGood rt (compactImpl E as rt) := by
+  obtain ⟨a, rfl, ha⟩ := args_inv1 h
+  obtain ⟨hk, hn⟩ := arg_known_nonnull ha rfl rfl
+  have hcm : a.containsMarked = false := ha.mark rfl
+  have hm : a.isMarked = false := isMarked_of_clean hcm
+  have hd := not_dyn_of_known_nonnull ha.wf hk hn
+  have hty := conform_list_string_inv (ha.conf hd)
+  simp only [compactType] at ht
+  cases ht
+  simp only [compactImpl]
+  split
+  · exact implGood_unknown rfl
+  · rename_i hwk
+    obtain ⟨t, p⟩ := a
+    simp only at hty
+    subst hty
+    have hw := ha.wf
+    cases p <;> simp [Value.WF, Payload.wfP, Value.isKnown, Value.isNull, Payload.isKnown, Payload.isNull,
+      Payload.unmark1, Value.isMarked, Payload.isMarked] at hw hk hn hm
+    rename_i vs
+    simp only [Value.containsMarked, Payload.containsMarked] at hcm
+    simp only [Value.whollyKnown, Payload.whollyKnown, Bool.not_eq_true', Bool.not_eq_false] at hwk
+    obtain ⟨out, ho, hot⟩ := compactLoop_strings vs hw.2 hcm hwk
+    simp only [elems, ho]
+    by_cases hl : out.length = 0
+    · simp only [hl, beq_self_eq_true, if_true]
+      exact implGood_seq (by decide) rfl
+    · simp only [hl, beq_iff_eq, if_false]
+      obtain ⟨ps, hps⟩ := listVal_of_ty (e := .string) rfl (by intro h0; simp [h0] at hl) hot
+      rw [hps]
+      exact implGood_seq (by decide) rfl
+
+theorem call_total_compact (E : Env) (args : List Value) (hargs : ∀ a ∈ args, a.WF nfc = true) :
+    (∀ w, (call compactSpec compactType (compactImpl E) args).1 ≠ .panic w) ∧
+    (∀ w, (call compactSpec compactType (compactImpl E) args).1 ≠ .err (.panicError w)) :=
+  call_total_of_good compactSpec compactType (compactImpl E) rfl (fun _ w _ => by simp [compactType])
+    (fun _ _ h ht => implGood_compact E h ht) args hargs
+
 end Stdlib
 end CtyModel
